@@ -293,3 +293,7 @@ def run(ctx):
                          "PEImageR; versions: every table string + random strings of the documented shape; deduction: stamps around table keys x max indices; "
                          "live tables walked entry by entry by Version.tla; distinct = image scenarios")
     ctx.exhaustive = True
+    # history freedom of the functions of their input behind this property (Pure.tla)
+    from vt.checks import xpure
+
+    xpure.pure_part(ctx, xpure.entries_for("C18"))
